@@ -10,8 +10,8 @@ STRUCTURAL = [0x00, 0x18, 0x19, 0x1b, 0x38, 0x40, 0x41, 0x58, 0x5f, 0x60, 0x61, 
 class C01(Prop):
     id = 'C01'
     module = 'Cbor.Props.C01'
-    extra_modules = ['Cbor.Props.HeapLoad']
-    theorems = ['Props.HeapLoad.load_dichotomy', 'Props.HeapLoad.release_loaded', 'Props.HeapLoad.loaded_tree_denotes', 'HB.hload_refines', 'Props.C01.C01_stream_reads_inside', 'Props.C01.C01_load_outcome', 'Props.C01.C01_load_any_allocator', 'Lemmas.Safe.load_safe', 'Props.C01.C01_read_inside', 'Props.C01.C01_serialize_inside',
+    extra_modules = ['Cbor.Props.HeapLoad', 'Cbor.Lemmas.ClientOps']
+    theorems = ['Props.C01.C01_client_ops', 'Props.C01.C01_loaded_val', 'Props.C01.C01_copy_loaded', 'Props.C01.C01_release_both', 'Heap.own_acyclic', 'Props.HeapLoad.load_dichotomy', 'Props.HeapLoad.release_loaded', 'Props.HeapLoad.loaded_tree_denotes', 'HB.hload_refines', 'Props.C01.C01_stream_reads_inside', 'Props.C01.C01_load_outcome', 'Props.C01.C01_load_any_allocator', 'Lemmas.Safe.load_safe', 'Props.C01.C01_read_inside', 'Props.C01.C01_serialize_inside',
                 'Lemmas.sd_ok', 'Lemmas.Refine.load_eq']
     trusted_base = BASE_TRUST + MODEL_TRUST + [
         'undefined behaviour, out-of-bounds access and assertion failures of the real C code outside the generated functions (builder callbacks, containers, cbor_copy, '
